@@ -3,15 +3,9 @@
 import json, os, subprocess
 ROOT = os.path.dirname(os.path.dirname(os.path.abspath(__file__)))
 
-# id -> (technique, level text, level_note, design_ref)
-CHECKS = {
- "C01": ("runtime monitor: reference accept(filter, callsite) oracle over recorded deliveries of seeded sequential multi-thread histories, fresh macro callsites per history; second build with compile-time level cap",
-         "Executes the real macros/dispatch/callsite registry on thousands of generated histories per run and compares every delivery with an independent filter model; holds = no divergence on the histories explored (sampled, not exhaustive).",
-         "Trusts the harness's recording collectors to be self-consistent (static answers change only with rebuild_interest_cache; hints are true upper bounds); sequential histories only (racing is C04).",
-         "DESIGN.md 5/C01"),
-}
-NOT_YET = {
-}
+# id -> {technique, text, note, ref}; edit tools/checks_table.json
+CHECKS = json.load(open(os.path.join(ROOT, "tools", "checks_table.json")))
+NOT_YET = {}
 
 def hooks_commits():
     try:
@@ -26,7 +20,7 @@ na = []
 for p in props:
     pid = p["id"]
     if pid in CHECKS:
-        tech, text, note, ref = CHECKS[pid]
+        c = CHECKS[pid]; tech, text, note, ref = c["technique"], c["text"], c["note"], c["ref"]
         checks.append({
             "property_id": pid,
             "quick_cmd": f"./check {pid} quick",
